@@ -88,6 +88,9 @@ pub trait Harness: Sync {
     type Sut;
     /// fresh system (resets the thread environment)
     fn init(&self) -> Self::Sut;
+    /// fresh system next to a live one in the same thread (no reset: the
+    /// ledgers are shared and compared against baselines)
+    fn init_nested(&self) -> Self::Sut;
     /// operations to try in this state
     fn ops(&self, sut: &Self::Sut) -> Vec<Self::Op>;
     /// apply `op` to the real collection and the reference model. With
@@ -179,7 +182,16 @@ fn history_of<Op: Clone>(nodes: &[Node<Op>], seeds: &[Vec<Op>], mut idx: usize) 
 
 /// Replay `hist` on a fresh system without return-value checks.
 pub fn replay<H: Harness>(h: &H, hist: &[H::Op], stats: &Stats) -> Result<H::Sut, String> {
-    let mut sut = h.init();
+    replay_in(h, hist, stats, false)
+}
+
+/// Same, next to a live system of the same thread (ledgers not reset).
+pub fn replay_nested<H: Harness>(h: &H, hist: &[H::Op], stats: &Stats) -> Result<H::Sut, String> {
+    replay_in(h, hist, stats, true)
+}
+
+fn replay_in<H: Harness>(h: &H, hist: &[H::Op], stats: &Stats, nested: bool) -> Result<H::Sut, String> {
+    let mut sut = if nested { h.init_nested() } else { h.init() };
     for op in hist {
         h.apply(&mut sut, op, false, stats)?;
     }
@@ -307,7 +319,7 @@ pub fn bfs<H: Harness>(h: &H, seeds: Vec<Vec<H::Op>>, lim: &Limits, stats: &Stat
                             }
                             let ops = h.ops(&sut);
                             if lim.run_probes {
-                                let rebuild = || replay(h, &hist, stats).expect("replay of a visited state failed");
+                                let rebuild = || replay_nested(h, &hist, stats).expect("replay of a visited state failed");
                                 h.probes(&rebuild, &mut sut, stats)?;
                             }
                             h.finish(sut)?;
